@@ -366,6 +366,14 @@ def check(run):
     run.check(bool(requeue) and bool(arm2) and all(q.any_precedes(pd, [a.site for a in arm2], r) for r in requeue), 'R4', 'armed-retransmit', T + '::packet_dropped', pd.loc(),
               'the dropped segment is queued for retransmission without re-assigning p.drop_fun (the dropping hop moved it out before invoking it): a second drop of the same segment is silent and the stream stalls forever',
               'p.drop_fun re-assigned before the segment is queued for retransmission')
+    # the retransmission needs a trigger of its own: the resend loop runs only from the ACK branch, and when the dropped
+    # segment was all the sender had outstanding no ACK is on its way - packet_dropped() must arm something (a timer wait,
+    # a posted completion) after the re-queue, on every path, that sends the queue again
+    fl_arm = q.flat_calls(pd, lambda g_, c: (q.callee_name(c) or '').split('::')[-1] in ('async_wait', 'post', 'defer', 'dispatch') or q.callee_name(c) == T + '::send_packet')
+    arms = [x.anchor for x in fl_arm]
+    run.check(bool(requeue) and bool(arms) and all(q.must_follow(pd, r, arms) for r in requeue), 'R4', 'retransmit-has-own-trigger', T + '::packet_dropped', pd.loc(),
+              'packet_dropped() only queues the segment: the single place that sends m_outgoing_packets again is the ACK branch of incoming_packet(), so a segment dropped while nothing else of the sender is in flight (no ACK on its way) is never resent - the simulation goes quiescent with the segment waiting and the peer\'s read pending',
+              'a timer wait / posted completion / resend follows the re-queue on every path')
     run.clause('R4 every DROPPABLE packet a socket emits carries a drop callback: payload segments (above) and the SYN (droppable by packet::ok_to_drop) - otherwise a tail-dropped SYN is lost silently and the connect never completes')
     sic = fx.fn1('sim::simulation::internal_connect')
     run.touch(sic)
